@@ -21,10 +21,10 @@ Variable F : fieldType.
 Variable k : nat.
 Variables y d : 'I_k -> F.
 Hypothesis yinj : injective y.
-Hypothesis vker : forall e, (e < k)%N -> \sum_(b < k) y b ^+ e * d b = 0.
+Hypothesis vker : forall e, (e < k)%nat -> \sum_(b < k) y b ^+ e * d b = 0.
 
 Lemma vander_poly (p : {poly F}) :
-  (size p <= k)%N -> \sum_(b < k) p.[y b] * d b = 0.
+  (size p <= k)%nat -> \sum_(b < k) p.[y b] * d b = 0.
 Proof.
 move=> sp.
 rewrite (eq_bigr (fun b => \sum_(e < k) p`_e * (y b ^+ e * d b))); last first.
@@ -72,11 +72,11 @@ End Vander.
 (* The power matrix                                                     *)
 (* ------------------------------------------------------------------ *)
 Definition P (r i : nat) : gf :=
-  if r == 0%N then 1 else if r == 1%N then two ^+ i else (two ^+ i)^-1.
+  if r == 0%nat then 1 else if r == 1%nat then two ^+ i else (two ^+ i)^-1.
 
 Lemma gf_sqr_inj (u v : gf) : u ^+ 2 = v ^+ 2 -> u = v.
 Proof.
-move/eqP; rewrite -subr_eq0 subr_sqr mulf_eq0 subr_eq0 gf_add_eq0 orbb.
+move/eqP; rewrite -subr_eq0 subr_sqr mulf_eq0 subr_eq0 ?gf_add_eq0 orbb.
 by move/eqP.
 Qed.
 
@@ -119,19 +119,19 @@ Lemma pkerR (r : 'I_3) :
 Proof. by case/codomP => a ->; apply: pker. Qed.
 
 Lemma pcount :
-  k = ((r0 \in codom rows) + (r1 \in codom rows) + (r2 \in codom rows))%N.
+  k = ((r0 \in codom rows) + (r1 \in codom rows) + (r2 \in codom rows))%nat.
 Proof.
 rewrite -[LHS](card_ord k) -(card_codom rows_inj) -sum1_card big_mkcond /=.
 rewrite !big_ord_recl big_ord0 addn0.
-have -> : ord0 = r0 by apply: val_inj.
-have -> : lift ord0 ord0 = r1 by apply: val_inj.
 have -> : lift ord0 (lift ord0 ord0) = r2 by apply: val_inj.
+have -> : lift ord0 ord0 = r1 by apply: val_inj.
+have -> : ord0 = r0 by apply: val_inj.
 by do 3!case: (_ \in _).
 Qed.
 
 Lemma pfinish (y w : 'I_k -> gf) :
   injective y -> (forall b, w b != 0) ->
-  (forall e, (e < k)%N ->
+  (forall e, (e < k)%nat ->
      exists2 r : 'I_3, r \in codom rows & forall b, y b ^+ e * w b = P r (cols b)) ->
   forall b, c b = 0.
 Proof.
@@ -153,40 +153,40 @@ have := pcount.
 case h0: (r0 \in codom rows); case h1: (r1 \in codom rows);
   case h2: (r2 \in codom rows) => /= ek.
 - (* rows {0,1,2} : nodes x, weights x^-1, exponents 0,1,2 -> rows 2,0,1 *)
-  apply: (@pfinish px (fun b => (px b)^-1) px_inj pxV_neq0) => e.
-  rewrite ek; case: e => [|[|[|e]]] // _.
+  apply: (@pfinish px (fun b => (px b)^-1) px_inj pxV_neq0) => e lt; rewrite ek in lt.
+  case: e lt => [|[|[|e]]] // _.
   + by exists r2 => // b; rewrite P2E expr0 mul1r.
   + by exists r0 => // b; rewrite P0E expr1 mulfV ?px_neq0.
   + by exists r1 => // b; rewrite P1E expr2 -mulrA mulfV ?px_neq0 ?mulr1.
 - (* rows {0,1} : nodes x, weights 1 *)
-  apply: (@pfinish px (fun=> 1) px_inj (fun=> oner_neq0 _)) => e.
-  rewrite ek; case: e => [|[|e]] // _.
+  apply: (@pfinish px (fun=> 1) px_inj (fun=> oner_neq0 _)) => e lt; rewrite ek in lt.
+  case: e lt => [|[|e]] // _.
   + by exists r0 => // b; rewrite P0E expr0 mulr1.
   + by exists r1 => // b; rewrite P1E expr1 mulr1.
 - (* rows {0,2} : nodes x^-1, weights 1 *)
-  apply: (@pfinish (fun b => (px b)^-1) (fun=> 1) pxV_inj (fun=> oner_neq0 _)) => e.
-  rewrite ek; case: e => [|[|e]] // _.
+  apply: (@pfinish (fun b => (px b)^-1) (fun=> 1) pxV_inj (fun=> oner_neq0 _)) => e lt; rewrite ek in lt.
+  case: e lt => [|[|e]] // _.
   + by exists r0 => // b; rewrite P0E expr0 mulr1.
   + by exists r2 => // b; rewrite P2E expr1 mulr1.
 - (* rows {0} *)
-  apply: (@pfinish px (fun=> 1) px_inj (fun=> oner_neq0 _)) => e.
-  rewrite ek; case: e => [|e] // _.
+  apply: (@pfinish px (fun=> 1) px_inj (fun=> oner_neq0 _)) => e lt; rewrite ek in lt.
+  case: e lt => [|e] // _.
   by exists r0 => // b; rewrite P0E expr0 mulr1.
 - (* rows {1,2} : nodes x^2, weights x^-1, exponents 0,1 -> rows 2,1 *)
-  apply: (@pfinish (fun b => px b ^+ 2) (fun b => (px b)^-1) px2_inj pxV_neq0) => e.
-  rewrite ek; case: e => [|[|e]] // _.
+  apply: (@pfinish (fun b => px b ^+ 2) (fun b => (px b)^-1) px2_inj pxV_neq0) => e lt; rewrite ek in lt.
+  case: e lt => [|[|e]] // _.
   + by exists r2 => // b; rewrite P2E expr0 mul1r.
   + by exists r1 => // b; rewrite P1E expr1 expr2 -mulrA mulfV ?px_neq0 ?mulr1.
 - (* rows {1} *)
-  apply: (@pfinish px px px_inj px_neq0) => e.
-  rewrite ek; case: e => [|e] // _.
+  apply: (@pfinish px px px_inj px_neq0) => e lt; rewrite ek in lt.
+  case: e lt => [|e] // _.
   by exists r1 => // b; rewrite P1E expr0 mul1r.
 - (* rows {2} *)
-  apply: (@pfinish px (fun b => (px b)^-1) px_inj pxV_neq0) => e.
-  rewrite ek; case: e => [|e] // _.
+  apply: (@pfinish px (fun b => (px b)^-1) px_inj pxV_neq0) => e lt; rewrite ek in lt.
+  case: e lt => [|e] // _.
   by exists r2 => // b; rewrite P2E expr0 mul1r.
 - (* no rows: k = 0 *)
-  by move=> b; have := ltn_ord b; rewrite ek.
+  by move=> b; have := leq_trans (ltn_ord b) (eq_leq ek).
 Qed.
 End Power.
 
@@ -211,7 +211,7 @@ have kT : kermx MM^T == 0.
   have v0 : forall b, v ord0 b = 0.
     apply: rker => i.
     have := congr1 (fun m : 'rV_k => m ord0 i) vM.
-    rewrite /= !mxE => <-; apply: eq_bigr => b _.
+    rewrite /= !mxE => E; rewrite -[RHS]E; apply: eq_bigr => b _.
     by rewrite !mxE mulrC.
   by apply/matrixP => i j; rewrite ord1 v0 mxE.
 have uM : MM \in unitmx.
